@@ -23,7 +23,7 @@ from ..common import QNAN, execute_cases, ints, qs
 
 METHODS = ["stacked", "max_score", "min_score", "avg_score"]
 FLAVOURS = ["normal", "ternary", "noisyperm", "dupcol", "scaled"]
-LEVFL = ["normal", "lowrank", "f32", "int"]
+LEVFL = ["normal", "lowrank", "f32", "int", "F", "strided", "ro"]
 S6 = 10**6
 S8 = 10**8
 
@@ -76,6 +76,24 @@ def _cp(weights, factors):
     return CPTensor((tl.tensor(np.array(weights, dtype=float)), [tl.tensor(np.array(f, dtype=float)) for f in factors]))
 
 
+def layout(a, lay):
+    """The same values in another memory layout: Fortran order, a non-contiguous view, a read-only array."""
+    a = np.asarray(a)
+    if lay == "C" or a.ndim == 0:
+        return a
+    if lay == "F" and a.ndim > 1:
+        return np.asfortranarray(a)
+    if lay in ("F", "strided"):
+        big = np.zeros(a.shape[:-1] + (a.shape[-1] * 2,), dtype=a.dtype)
+        big[..., ::2] = a
+        return big[..., ::2]
+    if lay == "ro":
+        b = a.copy()
+        b.setflags(write=False)
+        return b
+    raise ValueError(lay)
+
+
 def _permute(ref, targets):
     """cp_permute_factors plus a definitional measurement: does a returned tensor share memory with the caller's
     tensor it was made from?  (_permute.alias: one flag per returned tensor)"""
@@ -110,11 +128,15 @@ def _exact_options(c, A, B, w):
     Ai = [a.astype(np.int64) for a in A]
     Bh = [b * 0.5 for b in B]
     out = {"corr": [], "cong": [], "permute": []}
-    combos = [(t, dt, False) for t in (1, 2) for dt in ("f32", "f64")] + [(0, "f32", False), (0, "i64/f64h", False), (0, "i64/f64h", True)]
+    combos = [(t, dt, False) for t in (1, 2) for dt in ("f32", "f64")] + [(0, "f32", False), (0, "i64/f64h", False), (0, "i64/f64h", True),
+                                                                          (0, "F/str", False), (0, "ro/ro", False)]
+    lay_pair = {"F/str": ("F", "strided"), "ro/ro": ("ro", "ro")}
     tolv = {1: 1e-5, 2: 1e-3}
     for t, dt, swap in combos:
         if dt == "i64/f64h":
             P, Q = Ai, Bh
+        elif dt in lay_pair:
+            P, Q = [layout(a, lay_pair[dt][0]) for a in A], [layout(b, lay_pair[dt][1]) for b in B]
         else:
             tp = np.float32 if dt == "f32" else np.float64
             P, Q = [a.astype(tp) for a in A], [b.astype(tp) for b in B]
@@ -124,35 +146,45 @@ def _exact_options(c, A, B, w):
             rec = {"tol": t, "dt": dt, "swap": swap, "method": m, "raised": False, "val": 0, "zero": False}
             try:
                 kw = {"tol": tolv[t]} if t else {}
-                sc = correlation_index([tl.tensor(x.copy()) for x in P], [tl.tensor(x.copy()) for x in Q], method=m, **kw)
+                cp_ = (lambda x: x) if dt in lay_pair else (lambda x: tl.tensor(x.copy()))
+                sc = correlation_index([cp_(x) for x in P], [cp_(x) for x in Q], method=m, **kw)
                 rec.update(val=qi(sc, S6), zero=bool(sc == 0))
             except Exception as ex:
                 rec.update(raised=True, exc=type(ex).__name__)
             out["corr"].append(rec)
-    for mix in ("i64/f64h", "f32/f64"):
-        P0, Q0 = (Ai, Bh) if mix == "i64/f64h" else ([a.astype(np.float32) for a in A], B)
+    for mix in ("i64/f64h", "f32/f64", "F/str", "ro/ro"):
+        if mix in lay_pair:
+            P0, Q0 = [layout(a, lay_pair[mix][0]) for a in A], [layout(b, lay_pair[mix][1]) for b in B]
+        else:
+            P0, Q0 = (Ai, Bh) if mix == "i64/f64h" else ([a.astype(np.float32) for a in A], B)
         for swap in (False, True):
             P, Q = (Q0, P0) if swap else (P0, Q0)
             rec = {"mix": mix, "abs": True, "form": "list", "swap": swap, "raised": False, "val": QNAN, "perm": []}
             try:
-                val, perm = congruence_coefficient([tl.tensor(x.copy()) for x in P], [tl.tensor(x.copy()) for x in Q])
+                keep = (lambda x: x) if mix in lay_pair else (lambda x: tl.tensor(x.copy()))
+                val, perm = congruence_coefficient([keep(x) for x in P], [keep(x) for x in Q])
                 rec.update(val=qi(val, S6), perm=[int(x) for x in perm])
             except Exception as ex:
                 rec.update(raised=True, exc=type(ex).__name__)
             out["cong"].append(rec)
-    srcs = {"A": (np.ones(R), Ai), "B": (np.asarray(w, dtype=float), Bh)}
-    for ref, target in (("A", "B"), ("B", "A")):
-        rec = {"form": "single", "ref": ref, "target": target, "raised": False, "perm": [], "exact": True, "factors": [], "weights": [],
+    for ref, target, mix in (("A", "B", "i64/f64h"), ("B", "A", "i64/f64h"), ("A", "B", "F/str"), ("A", "B", "ro/ro")):
+        if mix == "i64/f64h":
+            srcs = {"A": (np.ones(R), Ai), "B": (np.asarray(w, dtype=float), Bh)}
+            mk = lambda wt, fs: CPTensor((tl.tensor(np.array(wt, dtype=float)), [tl.tensor(f.copy()) for f in fs]))
+        else:
+            la, lb = lay_pair[mix]
+            srcs = {"A": (layout(np.ones(R), la), [layout(a, la) for a in A]), "B": (layout(np.asarray(w, dtype=float), lb), [layout(b, lb) for b in B])}
+            mk = lambda wt, fs: CPTensor((wt, list(fs)))            # the arrays themselves, in their layout
+        rec = {"form": "single", "ref": ref, "target": target, "mix": mix, "raised": False, "perm": [], "exact": True, "factors": [], "weights": [],
                "eqf": False, "eqw": False, "alias": False}
         try:
-            mk = lambda wt, fs: CPTensor((tl.tensor(np.array(wt, dtype=float)), [tl.tensor(f.copy()) for f in fs]))
             t, perms = _permute(mk(*srcs[ref]), mk(*srcs[target]))
             perm = [int(x) for x in np.asarray(perms[0]).ravel()]
             sw, sf = srcs[target]
             ok = len(perm) == R and all(0 <= x < R for x in perm)
             rec.update(alias=bool(_permute.alias[0]), perm=perm, eqf=bool(ok and all(np.array_equal(np.asarray(f), b[:, perm]) for f, b in zip(t.factors, sf))),
                        eqw=bool(ok and np.array_equal(np.asarray(t.weights), sw[perm])))
-            if target == "A":
+            if target == "A" or mix != "i64/f64h":
                 facs, exact = [], True
                 for f in t.factors:
                     rows, ex = _rows(f)
@@ -299,6 +331,46 @@ def exec_zeros(case):
     return ev
 
 
+def exec_ties(case):
+    """Near ties (columns at an angle of 1e-5) and exact ties (duplicate columns): which matching is returned."""
+    import tensorly as tl
+    from tensorly.metrics.factors import congruence_coefficient
+    c = case["cfg"]
+    R, M = c["R"], c["M"]
+    A = [np.array(m, dtype=float) for m in c["A"]]
+    B = [np.array(m, dtype=float) for m in c["B"]]
+    w = np.array(c["w"], dtype=float)
+    ev = {"id": case["id"], "kind": "ties", "cfg": c, "cong": [], "permute": []}
+    for swap in (False, True):
+        P, Q = (B, A) if swap else (A, B)
+        for abs_ in ((True, False) if c["sc"] == 0 else (True,)):
+            for form in (["list", "bare"] if M == 1 else ["list"]):
+                a = tl.tensor(P[0].copy()) if form == "bare" else [tl.tensor(x.copy()) for x in P]
+                b = tl.tensor(Q[0].copy()) if form == "bare" else [tl.tensor(x.copy()) for x in Q]
+                rec = {"abs": abs_, "form": form, "swap": swap, "raised": False, "val": QNAN, "perm": []}
+                try:
+                    val, perm = congruence_coefficient(a, b, absolute_value=abs_)
+                    rec.update(val=qi(val, S6), perm=[int(x) for x in perm])
+                except Exception as ex:
+                    rec.update(raised=True, exc=type(ex).__name__)
+                ev["cong"].append(rec)
+    srcs = {"A": (np.ones(R), A), "B": (w, B)}
+    for ref, target in (("A", "B"), ("B", "A")):
+        rec = {"ref": ref, "target": target, "raised": False, "perm": [], "eqf": False, "eqw": False, "alias": False}
+        try:
+            t, perms = _permute(_cp(*srcs[ref]), _cp(*srcs[target]))
+            perm = [int(x) for x in np.asarray(perms[0]).ravel()]
+            sw, sf = srcs[target]
+            ok = len(perm) == R and all(0 <= x < R for x in perm)
+            rec.update(perm=perm, alias=bool(_permute.alias[0]),
+                       eqf=bool(ok and all(np.array_equal(np.asarray(f), b[:, perm]) for f, b in zip(t.factors, sf))),
+                       eqw=bool(ok and np.array_equal(np.asarray(t.weights), sw[perm])))
+        except Exception as ex:
+            rec.update(raised=True, exc=type(ex).__name__)
+        ev["permute"].append(rec)
+    return ev
+
+
 def _unit_cols(m):
     return m / np.sqrt((m * m).sum(axis=0))
 
@@ -377,7 +449,7 @@ def exec_metric(case):
     from tensorly.metrics import regression as reg
     c = case["cfg"]
     shape = tuple(c["shape"])
-    rng = _rng(case["seed"], 21, sorted(OPFN).index(c["op"]), c["axis"] + 5, c["k"], c["off"], *shape)
+    rng = _rng(case["seed"], 21, sorted(OPFN).index(c["op"]), c["axis"] + 5, c["k"], c["off"], ["C", "F", "strided", "ro"].index(c["lay"]), *shape)
     n = int(np.prod(shape))
     x = rng.integers(-3, 4, size=n)
     y = rng.integers(-3, 4, size=n)
@@ -385,8 +457,8 @@ def exec_metric(case):
         y = np.clip(x + rng.integers(-1, 2, size=n), -3, 3)
     off = 0.0 if c["off"] == 0 else 2.0 ** c["off"]      # offset regime: exactly representable integers
     dt = np.float32 if c["dt"] == "f32" else np.float64
-    X = tl.tensor((x.reshape(shape) + off).astype(dt))
-    Y = tl.tensor((y.reshape(shape) + off).astype(dt))
+    X = layout((x.reshape(shape) + off).astype(dt), c["lay"])
+    Y = layout((y.reshape(shape) + off).astype(dt), c["lay"])
     axis = None if c["axis"] == 99 else c["axis"]
     fn = getattr(reg, OPFN[c["op"]])
     try:
@@ -426,6 +498,8 @@ def exec_lev(case):
     rng = _rng(case["seed"], 22, rows, cols, LEVFL.index(fl), c["k"])
     if fl == "normal":
         mat = rng.standard_normal((rows, cols))
+    elif fl in ("F", "strided", "ro"):
+        mat = layout(rng.standard_normal((rows, cols)), fl)
     elif fl == "f32":
         mat = rng.standard_normal((rows, cols)).astype(np.float32)
     elif fl == "lowrank":
@@ -442,7 +516,7 @@ def exec_levexact(case):
     return {"id": case["id"], "kind": "levexact", "cfg": c, "out": _lev_out(np.array(c["A"], dtype=float))}
 
 
-EXEC = {"zeros": exec_zeros, "exact": exec_exact, "generic": exec_generic, "metric": exec_metric, "lev": exec_lev, "levexact": exec_levexact}
+EXEC = {"ties": exec_ties, "zeros": exec_zeros, "exact": exec_exact, "generic": exec_generic, "metric": exec_metric, "lev": exec_lev, "levexact": exec_levexact}
 
 
 def execute(case):
